@@ -243,12 +243,16 @@ ENV_REPRO = ("Reproducer on /repo/_build/janet: (def f (do (var x 1) (fn [] (++ 
              "(def bad (buffer (buffer/slice img 0 (- n 5)) \"\\xCD\\x7F\\xFF\\xFF\\xFF\" (buffer/slice img (- n 4)))) (pp (protect (unmarshal bad))) -- "
              "run under `ulimit -v 8000000` (or on any machine where a 16 GiB allocation fails): prints 'src/core/marsh.c:860 - janet out of memory' and the process exits with status 1; `protect` does not catch it. "
              "Without the limit (62 GiB machine, overcommit) the 16 GiB block is obtained and the call then raises 'unexpected end of source'.")
+ENV_FIX = "            if ((int64_t) length > (int64_t)(st->end - data)) {\n                janet_panic(\"unexpected end of source\");"
 unit("marsh.env.values_dos", "h_env_new",
-     "unmarshal_one_env, off-stack environment: the values block requested on behalf of the untrusted length is not larger than what the rest of the input can fill (DOS check, as the container arms have) - "
+     "unmarshal_one_env, off-stack environment: the values block requested on behalf of the untrusted length has at most one slot per byte of input that is left (DOS check, as the container arms have) - "
      "an allocation failure is not a catchable error, it exits the process",
-     [mut("values-block-doubled", "            env->as.values = janet_malloc(sizeof(Janet) * (size_t) length);", "            env->as.values = janet_malloc(2 * sizeof(Janet) * (size_t) length);", "DOS")],
+     [mut("dos-check-reverted", ENV_FIX, ENV_FIX.replace("if ((int64_t) length > (int64_t)(st->end - data))", "if (0)"), "DOS"),
+      mut("dos-check-off-by-one", ENV_FIX, ENV_FIX.replace("(int64_t) length >", "(int64_t) length - 1 >"), "DOS"),
+      mut("values-block-doubled", "            env->as.values = janet_malloc(sizeof(Janet) * (size_t) length);", "            env->as.values = janet_malloc(2 * sizeof(Janet) * (size_t) length);", "DOS")],
      EN, props=("C10",), defines=["-DMA_FIXED"], stubs=ESTUBS, entry_fn="unmarshal_one_env", rm_extra=E_RM, nanbox=False,
-     assumes=[A_READNAT, A_REC_ENV, A_ALLOC], cls="bounded", bound=BOUND_E, unwind=EMAXN, uassert=True, maxn=EMAXN, only="\\(DOS\\)|REACH")
+     assumes=[A_READNAT, A_REC_ENV, A_ALLOC], cls="bounded", bound=BOUND_E, unwind=EMAXN, uassert=True, maxn=EMAXN, only="\\(DOS\\)|REACH",
+     history="found failing on the pinned tree, repaired by /repo commit a9507fe. " + ENV_REPRO)
 
 # ------------------------------------------------------------------ 4b. unmarshal_one_def (new definition): layout of the object (sizes arithmetic: marsh.def.sizes, references: marsh.ref.def)
 DF = "marsh_arms_def.c"
@@ -276,13 +280,20 @@ unit("marsh.def.new", "h_def_new",
      "nested values and definitions are read one level deeper; name and source must be strings; the definition is handed out only after janet_verify has accepted the finished object",
      M_DEF, DF, props=("C10", "C09"), defines=["-DMA_FIXED"], stubs=DSTUBS, entry_fn="unmarshal_one_def", rm_extra=D_RM, nanbox=False,
      assumes=[A_DEF, "janet_v_grow (vector.c) is an allocation contract: returns a vector with room for one more element that keeps count and elements"],
-     cls="bounded", bound=BOUND_D, unwind=DUNW, uassert=True, maxn=DMAXN, skip=D_SKIP, undecided_clauses=D_UNDEC)
+     cls="bounded", bound=BOUND_D, unwind=DUNW, uassert=True, maxn=DMAXN, skip=D_SKIP, undecided_clauses=D_UNDEC, tier="thorough")
+DEF_FIX = "        if ((int64_t) constants_length + bytecode_length + environments_length +\n                defs_length + symbolmap_length > (int64_t)(st->end - data)) {"
 unit("marsh.def.vectors_dos", "h_def_new",
-     "unmarshal_one_def: no vector requested on behalf of an untrusted count (constants, symbolmap, bytecode, environments, defs, sourcemap, closure bitset) is larger than what the rest of the input can fill "
-     "(DOS check, as the container arms have) - an allocation failure is not a catchable error, it exits the process",
-     [mut("constants-vector-doubled", "            def->constants = janet_malloc(sizeof(Janet) * constants_length);", "            def->constants = janet_malloc(2 * sizeof(Janet) * constants_length);", "DOS")],
+     "unmarshal_one_def: the vectors requested on behalf of the untrusted counts (constants, symbolmap, bytecode, environments, defs, sourcemap) together take at most 24 bytes per byte of input that was left when the counts "
+     "had been read, and none is requested before all counts are read (DOS check) - an allocation failure is not a catchable error, it exits the process; the closure bitset, sized by the 31-bit slot count, is at most 2^26 words",
+     [mut("dos-check-reverted", DEF_FIX, "        if (0) {", "DOS"),
+      mut("symbolmap-count-forgotten", DEF_FIX, DEF_FIX.replace("defs_length + symbolmap_length >", "defs_length >"), "DOS"),
+      mut("constants-vector-doubled", "            def->constants = janet_malloc(sizeof(Janet) * constants_length);", "            def->constants = janet_malloc(2 * sizeof(Janet) * constants_length);", "DOS")],
      DF, props=("C10",), defines=["-DMA_FIXED", "-DMD_DOS"], stubs=DSTUBS, entry_fn="unmarshal_one_def", rm_extra=D_RM, nanbox=False,
-     assumes=[A_DEF], cls="bounded", bound=BOUND_D, unwind=DUNW, uassert=True, maxn=DMAXN, only="\\(DOS\\)|REACH")
+     assumes=[A_DEF], cls="bounded", bound=BOUND_D.replace("at most %d bytes" % DMAXN, "at most 9 bytes").replace("at most %d elements" % (DMAXN - 7), "at most 2 elements").replace("unwound %dx" % DUNW, "unwound 3x"),
+     unwind=3, uassert=True, maxn=9, only="\\(DOS\\)|REACH",
+     history="found failing on the pinned tree, repaired by /repo commit a9507fe. Reproducer then (13-byte image): (pp (protect (unmarshal \"\\xD7\\x00\\x00\\x01\\x00\\x00\\x00\\xCD\\x7F\\xFF\\xFF\\xFF\\x01\"))) under `ulimit -v 8000000` "
+             "printed 'src/core/marsh.c:962 - janet out of memory' and exited with status 1",
+     undecided_clauses=["the closure bitset is sized by slotcount (up to 2^26 words = 256 MiB for a 31-bit slot count), which the repaired check does not relate to the input size; it is requested only after all bytecode words have been read"])
 
 # ------------------------------------------------------------------ 5. top level and the abstract-type API
 AP = "marsh_arms_api.c"
@@ -402,17 +413,9 @@ def disable(uid, reason):
 disable("marsh.arm.tuple.flag_shift",
         "FAILS on the real code (undefined behaviour, no observable misbehaviour with gcc/clang): obligation unmarshal_one.overflow.* 'arithmetic overflow on signed shl in flag << 16' (marsh.c, LB_TUPLE arm: "
         "`janet_tuple_flag(tup) |= flag << 16;` with `int32_t flag = readint(...)` straight from the image). Reproducer on a -fsanitize=shift build of /repo/_build/janet.c: "
-        "(unmarshal \"\\xD2\\x00\\xCD\\x00\\x00\\x80\\x00\") -> 'src/core/marsh.c:1504:47: runtime error: left shift of 32768 by 16 places cannot be represented in type 'int''. "
+        "(unmarshal \"\\xD2\\x00\\xCD\\x00\\x00\\x80\\x00\") -> 'src/core/marsh.c:<line of that statement, " + str(SRC[:SRC.index('janet_tuple_flag(tup) |= flag << 16;')].count(chr(10)) + 1) + " in the current tree>:47: runtime error: left shift of 32768 by 16 places cannot be represented in type 'int''. "
         "On the shipped binary the same image yields a tuple whose header has the sign bit set and prints as () instead of []. The restricted unit marsh.arm.tuple.flag_shift16 (flag in [0, 0x8000)) passes; "
         "unit marsh.arm.tuple proves that whatever the flag word is, only bits 16..31 of the header are touched. Possible fix: `janet_tuple_flag(tup) |= (int32_t)((uint32_t) flag << 16);` or accept only the defined flag bits.")
-disable("marsh.env.values_dos", "FAILS on the real code (GENUINE: a small image makes `unmarshal` terminate the process instead of raising): obligation mv_malloc_stub.assertion.1 '(DOS)': unmarshal_one_env (marsh.c:858) does "
-        "`env->as.values = janet_malloc(sizeof(Janet) * (size_t) length)` for ANY length < 2^31 read from the image, without the `MARSH_EOS(st, data - 1 + len)` check the container arms have; when the allocation "
-        "fails JANET_OUT_OF_MEMORY prints and exits. " + ENV_REPRO + " Same class as the fixed defect 248f882. Possible fix: `MARSH_EOS(st, data - 1 + length);` before the allocation (every value takes at least one byte).")
-disable("marsh.def.vectors_dos", "FAILS on the real code (GENUINE, same class as marsh.env.values_dos): obligation md_alloc.assertion.1 '(DOS)': unmarshal_one_def allocates constants (marsh.c:960), symbolmap (:974), bytecode (:993), "
-        "environments (:1002), defs (:1016), sourcemap (:1031) for ANY count < 2^31 read from the image with no check against the remaining input; a failed allocation exits the process (JANET_OUT_OF_MEMORY). "
-        "Reproducer on /repo/_build/janet (13-byte image): (pp (protect (unmarshal \"\\xD7\\x00\\x00\\x01\\x00\\x00\\x00\\xCD\\x7F\\xFF\\xFF\\xFF\\x01\"))) under `ulimit -v 8000000` (or on any machine where a 16 GiB "
-        "allocation fails) prints 'src/core/marsh.c:962 - janet out of memory' and exits with status 1 - `protect` does not catch it; without the limit (62 GiB machine, overcommit) it raises 'unexpected end of source'. "
-        "Possible fix: MARSH_EOS-style checks of each count against the remaining input before the allocation (constants/environments/defs: 1 byte per element, bytecode: 4, sourcemap: 2, symbolmap: 4).")
 disable("marsh.api.ensure.any_size", "FAILS on the real code (C API only, no Janet-level reproducer): obligation h_api_ensure.assertion.1: `MARSH_EOS(st, ctx->data + size)` computes a pointer `size` bytes past the cursor; for size >= 2^63 "
         "the address wraps around (size = SIZE_MAX gives data - 1 < end) and the check passes although fewer than `size` bytes remain (janet_unmarshal_bytes has the same `ctx->data + len - 1`, but there the caller must own "
         "a destination of len bytes). A hook written as `n = janet_unmarshal_size(ctx); janet_unmarshal_ensure(ctx, n); p = janet_unmarshal_abstract(ctx, n);` is then driven into an allocation of n bytes (out of memory = process exit). "
